@@ -176,6 +176,7 @@ static std::vector<Scenario> make_scenarios() {
     v.push_back(Scenario{"cif_pktitr_close", 1 | 2, false, false, [](S &s, const Params &p) -> int { (void) s; (void) p;  int rc = cif_pktitr_close(s.it); s.it = nullptr; return rc;  }, [](S &s) { (void) s;  }});
     v.push_back(Scenario{"cif_pktitr_abort", 1 | 2, false, false, [](S &s, const Params &p) -> int { (void) s; (void) p;  int rc = cif_pktitr_abort(s.it); s.it = nullptr; return rc;  }, [](S &s) { (void) s;  }});
     // appended later (replay files refer to scenarios by index, so new ones go at the end)
+    v.push_back(Scenario{"cif_pktitr_next_packet(into unrelated packet)", 1 | 2 | 128, false, false, [](S &s, const Params &p) -> int { (void) s; (void) p;  return cif_pktitr_next_packet(s.it, &s.pkt2);  }, [](S &s) { (void) s;  }});
     v.push_back(Scenario{"cif_container_set_value(existing scalar)", 1 | 8, true, false, [](S &s, const Params &p) -> int { (void) s; (void) p;  return cif_container_set_value(s.blk, U(u"_S2"), s.val2);  }, [](S &s) { (void) s;  }});
     v.push_back(Scenario{"cif_container_set_value(big list, new scalar)", 1 | 512, true, false, [](S &s, const Params &p) -> int { (void) s; (void) p;  return cif_container_set_value(s.blk, U(u"_big_scalar"), s.val2);  }, [](S &s) { (void) s;  }});
     v.push_back(Scenario{"cif_container_set_value(big list, existing looped)", 1 | 512, true, false, [](S &s, const Params &p) -> int { (void) s; (void) p;  return cif_container_set_value(s.blk, U(u"_l1"), s.val2);  }, [](S &s) { (void) s;  }});
